@@ -310,6 +310,24 @@ def oracle(d, rc):
     return fails, hist, notes, vec
 
 
+def nlines(p):
+    try:
+        with open(p, "rb") as f:
+            return sum(1 for _ in f)
+    except OSError:
+        return -1
+
+
+def model_bin(ctx, fresh=False):
+    """A private copy of the extracted model: the shared binary may be relinked by another ./check in the same tree."""
+    dst = os.path.join(ctx.run_dir, "modelrun")
+    if fresh or not os.path.exists(dst):
+        tmp = dst + ".%d" % time.time_ns()
+        shutil.copy2(vlib.modelrun_path(GROUP), tmp)
+        os.replace(tmp, dst)
+    return dst
+
+
 def run_epochs(ctx, jobs, avoid, budget=600):
     """jobs: list of (subdir, args string). Runs the harness processes in parallel, then the model."""
     procs = []
@@ -327,8 +345,8 @@ def run_epochs(ctx, jobs, avoid, budget=600):
 
     def start_model(d):
         # the sized values of the length sweep are long lists in the extracted model: no stack limit
-        mprocs.append(subprocess.Popen("ulimit -s unlimited 2>/dev/null; %s < cases.tsv > model.out" % vlib.modelrun_path(GROUP),
-                                       shell=True, cwd=d, executable="/bin/bash"))
+        mprocs.append((d, subprocess.Popen("ulimit -s unlimited 2>/dev/null; %s < cases.tsv > model.out" % model_bin(ctx),
+                                           shell=True, cwd=d, executable="/bin/bash")))
 
     pending = list(procs)
     while pending:
@@ -361,8 +379,13 @@ def run_epochs(ctx, jobs, avoid, budget=600):
             start_model(d)     # the model of a finished job runs while the other jobs are still going
         if not progressed:
             time.sleep(0.3)
-    for p in mprocs:
+    for d, p in mprocs:
         p.wait()
+        # a model run that did not answer every case (its binary replaced under it by a concurrent build in the same
+        # tree) is repeated once from a fresh copy
+        if nlines(os.path.join(d, "model.out")) != nlines(os.path.join(d, "cases.tsv")):
+            time.sleep(2)
+            sh("ulimit -s unlimited 2>/dev/null; %s < cases.tsv > model.out" % model_bin(ctx, fresh=True), cwd=d, timeout=600)
     order = {sub: i for i, (sub, _) in enumerate(jobs)}
     res.sort(key=lambda r: order.get(r[0], 0))
     return res
@@ -382,10 +405,15 @@ def run(ctx):
         log("MODEL BUILD FAILED:\n" + mout[-3000:])
         raise SystemExit(2)
 
-    # stale sub-directories of earlier runs (other tier / seed) are not evidence of this run
-    for old_d in glob.glob(os.path.join(ctx.run_dir, "*")):
-        if os.path.isdir(old_d):
+    # stale sub-directories of earlier runs (other tier / seed) are not evidence of this run; a run that is still alive
+    # in the same tree (another builder's ./check C11) keeps its own directory p<pid>
+    base_rd = ctx.run_dir
+    for old_d in glob.glob(os.path.join(base_rd, "*")):
+        m = re.match(r"p(\d+)$", os.path.basename(old_d))
+        if os.path.isdir(old_d) and not (m and os.path.exists("/proc/%s" % m.group(1))):
             shutil.rmtree(old_d, ignore_errors=True)
+    ctx.run_dir = os.path.join(base_rd, "p%d" % os.getpid())
+    os.makedirs(ctx.run_dir, exist_ok=True)
     avoid = ",".join(sorted(k for k, sig in DANGER.items()
                             if any(kf.get("status") == "open" and kf.get("property") == "C11" and kf.get("signature") == sig
                                    for kf in vlib.load_known_findings())))
